@@ -4,14 +4,14 @@ tag=$1; prop=$2; tier=${3:-quick}
 cd /verif
 if [ -n "$(git -C /repo status --porcelain -- src Cargo.toml)" ]; then echo "/repo not clean"; exit 9; fi
 git -C /repo apply /verif/seeded/$tag/patch.diff || exit 8
-./check $prop --tier $tier --no-evidence > /verif/seeded/$tag/check_$tier.log 2>&1
+./check $prop --tier $tier --no-evidence > /verif/seeded/$tag/check_${prop}_$tier.log 2>&1
 rc=$?
 git -C /repo checkout -- .
-echo "$tag $prop tier=$tier exit=$rc $(grep -c '^VIOLATION' /verif/seeded/$tag/check_$tier.log) violation line(s)"
+echo "$tag $prop tier=$tier exit=$rc $(grep -c '^VIOLATION' /verif/seeded/$tag/check_${prop}_$tier.log) violation line(s)"
 python3 - <<PY
 import json
 p="/verif/seeded/$tag/meta.json"; m=json.load(open(p))
-m.setdefault("check_runs", {})["$tier"]=dict(cmd="git -C /repo apply seeded/$tag/patch.diff; ./check $prop --tier $tier; git -C /repo checkout -- .", exit=$rc,
-   violation_lines=[l.strip() for l in open("/verif/seeded/$tag/check_$tier.log") if l.startswith("VIOLATION") or l.startswith("  harness=")])
+m.setdefault("check_runs", {})["$prop:$tier"]=dict(cmd="git -C /repo apply seeded/$tag/patch.diff; ./check $prop --tier $tier; git -C /repo checkout -- .", exit=$rc,
+   violation_lines=[l.strip() for l in open("/verif/seeded/$tag/check_${prop}_$tier.log") if l.startswith("VIOLATION") or l.startswith("  harness=")])
 json.dump(m, open(p,"w"), indent=1)
 PY
